@@ -238,6 +238,9 @@ for _m, _q, _w in [("seq_next_element_seed", "SeqAccess::next_element_seed", "C0
                    ("map_next_value_seed", "MapAccess::next_value_seed", "C01.K.map_access*")]:
     V("C03.V.dekind." + _m, "dekinds", _q, {"C03": "D", "C01": "S", "C04": "S"}, fns=["postcard::de::deserializer::" + _q], witness=_w,
       note=_q + ": while the announced count is > 0 runs ANY seed on the stream exactly once and counts down, propagating its error; at 0 returns None and touches nothing")
+V("C03.V.dekind.variant_seed", "dekinds", "Deserializer::variant_seed", {"C03": "D", "C01": "S", "C04": "S"},
+  fns=["postcard::de::deserializer::<impl serde::de::EnumAccess for &mut Deserializer<F>>::variant_seed"], witness="C01.K.variant_index*",
+  note="the variant index handed to ANY seed is exactly the varint(u32) at the front of the stream, those bytes consumed, otherwise unexpected-end / bad-varint - every index, every stream (D20: u32::into_deserializer modelled as a seed method)")
 V("C04.V.dekind.seq_size_hint", "dekinds", "SeqAccess::size_hint", {"C04": "D"}, fns=["postcard::de::deserializer::SeqAccess::size_hint"], witness="C04.K.size_hint*",
   note="over a flavour that knows how much input is left (Slice), Some(h) ==> h <= bytes left and h == the announced count: a claimed length never drives a pre-allocation beyond the input - every count, every stream")
 for _m, _w in sorted(_DKW.items()):
@@ -497,7 +500,7 @@ ASSUMPTIONS = {
     "C01": [A_SERDE, A_PARAM, "nesting to arbitrary depth is not proved as one theorem: per-kind round trips + composite probes (depth <= 3) + A-serde"],
     "C02": [A_SERDE, A_PARAM, "Verus stub le0_* (x.to_le_bytes()[0] == x & 0xff) - discharged by Kani harnesses C02.K.stub.le0_*", "debug_assert_eq!(value, 0) dropped on Route V (D2); Kani checks it",
             "unit emit: Flavor and Serialize are re-declared traits carrying the flavour contract (out' == out ++ data on Ok) and the payload hypothesis (a value appends wire()); str length/bytes through stubs str_len / str_as_bytes over an uninterpreted str_bytes (D17, std: len() == as_bytes().len()); array-length literals for varint_max::<T>() (D18, == C12.V.varint_max); .map_err(|_| BufferFull) dropped (D12); methods of `&mut Serializer<F>` taken by value are extracted as inherent `&mut self` methods (D15) and compound-state results Ok(self) as Ok(()) (D16); serialize_i8 / f32 / f64 / char / collect_str are not in the unit (Kani only)"],
-    "C03": [A_SERDE, A_PARAM, "unit dekinds: Flavor and Visitor are re-declared traits (flavour contract; an abstract visitor whose answer on_X(v) is any function of the value shown, and whose effect on the stream for option/newtype payloads is any function of the stream); UTF-8 validity is the uninterpreted utf8_ok with the stub from_utf8_or_bad = core::str::from_utf8(..).map_err(BadUtf8) (D19, std); Deserializer's fields made pub for the abstract contract (visibility only); deserialize_char / f32 / f64, EnumAccess::variant_seed and MapAccess::size_hint are not in the unit (Kani contracts); the flavour contract includes size_hint as `exact when Some` (Slice: Kani C03.K.flavor.slice); for compound kinds the visitor's / seed's effect on the stream is an arbitrary function (on_seq, on_map, on_enum, on_de)", "UTF-8 validity oracle for strings <= 3 bytes is written from Unicode Table 3-7; char oracle uses char::encode_utf8 (std)"],
+    "C03": [A_SERDE, A_PARAM, "unit dekinds: Flavor and Visitor are re-declared traits (flavour contract; an abstract visitor whose answer on_X(v) is any function of the value shown, and whose effect on the stream for option/newtype payloads is any function of the stream); UTF-8 validity is the uninterpreted utf8_ok with the stub from_utf8_or_bad = core::str::from_utf8(..).map_err(BadUtf8) (D19, std); Deserializer's fields made pub for the abstract contract (visibility only); deserialize_char / f32 / f64 and MapAccess::size_hint are not in the unit (Kani contracts); the flavour contract includes size_hint as `exact when Some` (Slice: Kani C03.K.flavor.slice); for compound kinds the visitor's / seed's effect on the stream is an arbitrary function (on_seq, on_map, on_enum, on_de)", "UTF-8 validity oracle for strings <= 3 bytes is written from Unicode Table 3-7; char oracle uses char::encode_utf8 (std)"],
     "C04": [A_SERDE, "A-cautious: serde's collection visitors cap pre-allocation by min(hint, 1 MiB / size_of::<T>()); the numeric allocation bound itself is not decided by any contract in reach", "MapAccess::size_hint returns Some(len) unconditionally (maps are outside the property's allocation clause; recorded, not alarmed)"],
     "C05": [A_SERDE, A_PARAM, "capacity running out at every byte position is covered per flavour contract (symbolic capacity), not as one API-level theorem"],
     "C06": ["A-cobs-src: the cobs source verified is the registry copy of cobs 0.2.3 pinned by Cargo.lock, with a cfg(kani) constructor/getter appended in the scratch copy only", "the link between the per-step contract (Kani, arbitrary state) and the whole-message theorem (Verus lemma) is the shared abstract machine M; Cobs<B> relies on B only through the Flavor + IndexMut contract proved for Slice/HVec", A_SERDE],
